@@ -41,7 +41,7 @@ func (ig *ingest) gates(e *Effect) {
 		ev.Verdict("G4.commits", props("C01", "C03"), "the commits handed to the commit callback are GetCommitMessages(h, v, hash) of one key", "", true, "")
 		ppm := Ext(0, Call("interfaces.GetPreprepareMessage", k.ST, h, v))
 		okPpm := Truth(Ext(1, Call("interfaces.GetPreprepareMessage", k.ST, h, v)))
-		ev.Require("G1", props("C01", "C04"), "commit only with a stored proposal for (h,v) that carries a block and whose header hash equals the committed hash", "",
+		ev.Require("G1", props("C01", "C04", "C12"), "commit only with a stored proposal for (h,v) that carries a block and whose header hash equals the committed hash", "",
 			okPpm, Ne(Field(ppm, "block"), tNil), Eq(hash(hdr(ppm)), x))
 		ev.Require("G2", props("C01", "C03"), "commit only under a quorum of stored COMMIT senders for exactly (h, v, hash)", "",
 			k.Quorum(Call("interfaces.GetCommitSendersIds", k.ST, h, v, x)), Truth(Ext(1, Call("interfaces.GetCommitMessages", k.ST, h, v, x))))
@@ -140,7 +140,7 @@ func (ig *ingest) gates(e *Effect) {
 			rcpt := ev.Arg(2)
 			want := T("array", "", k.LeaderOf(msg.Args[2]))
 			ev.Verdict("L2.rcpt", props("C05", "C09"), "a VIEW_CHANGE for view v is sent to exactly the leader of v", "", ev.Same(rcpt, want), "recipients "+PP(rcpt))
-			ev.Require("L2.notleader", props("C05", "C09"), "the vote is sent over the network only when this node is not itself the leader of the new view", "", Ne(k.LeaderOf(msg.Args[2]), k.MyId))
+			ev.Require("L2.notleader", props("C05", "C09", "C18"), "the vote is sent over the network only when this node is not itself the leader of the new view", "", Ne(k.LeaderOf(msg.Args[2]), k.MyId))
 		case msg.Op == "call" && msg.Name == "messagesfactory.CreatePrepareMessage":
 			// the proposal it answers was stored first
 			ok := false
@@ -239,7 +239,11 @@ func (ig *ingest) ctxProvenance(ev *Eval, rule string, ctx, h, v *Term) bool {
 		}
 	}
 	_ = k
-	return ev.Verdict(rule, props("C15"), "the context handed to an SPI call / consumer callback is the one issued by the context registry for the position the call is about", "", ok, why)
+	pr := props("C15")
+	if rule == "K6.commit" {
+		pr = props("C15", "C16") // a commit callback under a context that shutdown does not cancel keeps the worker from ending
+	}
+	return ev.Verdict(rule, pr, "the context handed to an SPI call / consumer callback is the one issued by the context registry for the position the call is about", "", ok, why)
 }
 
 // blockCtxLive (K8): a proposal built from RequestNewBlockProposal(ctx,...) is broadcast only after ctx.Err()==nil was re-checked
